@@ -7,7 +7,8 @@
 (* Go harness executes the path on the real engine and compares.            *)
 EXTENDS Store, Json, SequencesExt
 
-CONSTANTS MaxStmts, MaxRows, MaxFlush, MaxCrash, EmitOn,
+CONSTANTS MaxStmts, MaxRows, MaxFlush, MaxCrash, MaxEvict, EmitOn,
+          EmitSel,     \* which completed paths are printed: "all", "crash", "crash-wal", "crash-flush", "error"
           BadMode,     \* which invalid rows INSERT/UPDATE may carry: "none", "type-size", "count-range", "all"
           DmlTables,   \* tables that INSERT/UPDATE/DELETE address (a subset of Tables, to focus a configuration)
           Ops          \* statement kinds explored: subset of {"create", "insert", "update", "delete"}
@@ -28,9 +29,10 @@ OneBad(rows) == Cardinality({i \in 1..Len(rows) : rows[i] < 0}) <= 1
 H(step) == hist' = Append(hist, step)
 Bump(f) == cnt' = [cnt EXCEPT ![f] = @ + 1]
 
-MCInit == Init /\ cnt = [st |-> 0, fl |-> 0, cr |-> 0] /\ hist = <<>>
+MCInit == Init /\ cnt = [st |-> 0, fl |-> 0, cr |-> 0, ev |-> 0] /\ hist = <<>>
 
-StmtOK == pc.k = "idle" /\ cnt.st < MaxStmts /\ scope = "all"
+\* nothing further is explored after a known-defective situation: what follows it is not judged anyway
+StmtOK == pc.k = "idle" /\ cnt.st < MaxStmts /\ taint = {}
 
 MCNext ==
   \/ /\ StmtOK /\ "create" \in Ops /\ \E t \in Tables : CreateStmt(t) /\ H([a |-> "create", t |-> t]) /\ Bump("st")
@@ -40,8 +42,9 @@ MCNext ==
           UpdateStmt(t, w, v) /\ H([a |-> "update", t |-> t, w |-> w, v |-> v]) /\ Bump("st")
   \/ /\ StmtOK /\ "delete" \in Ops /\ \E t \in DmlTables, w \in Vals \cup {0} :
           DeleteStmt(t, w) /\ H([a |-> "delete", t |-> t, w |-> w]) /\ Bump("st")
-  \/ /\ cnt.fl < MaxFlush /\ scope = "all" /\ (cache # <<>> \/ dhdr # mhdr)
+  \/ /\ cnt.fl < MaxFlush /\ taint = {} /\ (cache # <<>> \/ dhdr # mhdr)
      /\ FlushBegin /\ H([a |-> "flush"]) /\ Bump("fl")
+  \/ /\ cnt.ev < MaxEvict /\ taint = {} /\ EvictAll /\ H([a |-> "evict"]) /\ Bump("ev")
   \/ /\ \E p \in pc.todo : FlushPage(p) /\ UNCHANGED <<cnt, hist>>
   \/ /\ FlushHdr /\ UNCHANGED <<cnt, hist>>
   \/ /\ WalStep /\ UNCHANGED <<cnt, hist>>
@@ -68,7 +71,12 @@ Post(c, d, h) == [pages |-> [i \in 1..Len(PageIds(c, d)) |-> PageOut(PageIds(c, 
                   hdr |-> <<h.lastKey, h.ptRoot, h.nx, h.lsn>>]
 AbsOut(a) == LET ts == SetToSortSeq(DOMAIN a, LAMBDA x, y : TRUE) IN [i \in 1..Len(ts) |-> [t |-> ts[i], rows |-> a[ts[i]]]]
 
-Emit == (EmitOn /\ out'.k # "none") =>
+Selected == CASE EmitSel = "all" -> TRUE
+              [] EmitSel = "crash" -> \E i \in 1..Len(hist') : hist'[i].a = "crash"
+              [] EmitSel = "crash-wal" -> \E i \in 1..Len(hist') : hist'[i].a = "crash" /\ hist'[i].at = "wal"
+              [] EmitSel = "crash-flush" -> \E i \in 1..Len(hist') : hist'[i].a = "crash" /\ hist'[i].at = "flush"
+              [] EmitSel = "error" -> out'.k = "error"
+Emit == (EmitOn /\ out'.k # "none" /\ Selected) =>
           PrintT(<<"SCN", ToJson([steps |-> hist', out |-> out'.k,
                                   abs |-> AbsOut(abs'),
                                   allowed |-> IF out'.k \in {"recovered", "lost", "dead"}
